@@ -1,0 +1,33 @@
+//! C13: observe what backup / restore must reproduce (the dump itself lives at the end of
+//! be/mod.rs because the id layer is private to that module), plus the gzip wrapper so the
+//! harness can open and re-pack compressed backups with the very same library.
+
+use crate::entry::EntrySealedCommitted;
+use crate::prelude::*;
+use std::io::{Read, Write};
+
+pub use crate::be::{verif_c13_dump as dump, VerifC13Dump};
+
+/// The change ids an entry's change state contributes to the RUV (`cid_iter`).
+pub fn entry_cids(e: &EntrySealedCommitted) -> Vec<Cid> {
+    e.get_changestate().cid_iter().into_iter().cloned().collect()
+}
+
+/// The version string `backup` writes and `restore` insists on.
+pub fn pkg_series() -> &'static str {
+    env!("KANIDM_PKG_SERIES")
+}
+
+pub fn gzip(data: &[u8]) -> Vec<u8> {
+    let mut enc = flate2::write::GzEncoder::new(Vec::new(), flate2::Compression::best());
+    enc.write_all(data).expect("gzip write");
+    enc.finish().expect("gzip finish")
+}
+
+pub fn gunzip(data: &[u8]) -> Option<Vec<u8>> {
+    let mut out = Vec::new();
+    flate2::read::GzDecoder::new(data)
+        .read_to_end(&mut out)
+        .ok()
+        .map(|_| out)
+}
